@@ -362,7 +362,7 @@ def own_rule(ctx, only_module: str | None = None, rule: str = "C10.own", fields=
 
     def _full(f):
         if f.ident not in full:
-            full[f.ident] = own.analyse_full(f)
+            full[f.ident] = own.analyse_full(f, repo)
         return full[f.ident]
 
     def handed_over(f, pname):
@@ -409,6 +409,53 @@ def own_rule(ctx, only_module: str | None = None, rule: str = "C10.own", fields=
             ctx.decide(st == own.OWNED, rule, f.ident, loc_of(f, node), f"{desc}: the array written into was created in this function (copy / new array){note}",
                        f"{desc} writes into `{name}`, which may be (a view of) an argument or attribute: the caller's array -- e.g. the coordinates of a population whose "
                        "log-densities are cached, or the stored log-weights of a sample set -- is changed in place", disc=f"{name}|{sum(1 for x in o.sinks if x[0].lineno < node.lineno)}")
+    # in-place updates through a name bound to an item of a container the function does not own (`t = values[0]; t += v`)
+    for f in repo.all_functions():
+        if f.ident == PRIMITIVE or (only_module is not None and not f.ident.startswith(only_module + ":")) or f.ident in getattr(repo, "inlined_idents", ()):
+            continue
+        o = _full(f)
+        for node, desc, root, name in o.elem_sinks:
+            if root is None:
+                continue
+            if root[0] == "attr":
+                if fields is not None and root[1] not in fields:
+                    continue
+                where = f"an item of (a view of) attribute `{root[1]}`"
+                bad_sites = ["(attribute)"]
+            else:
+                # item of a parameter: judged where the function is called -- a container rooted in an attribute / argument of the caller is not the callee's to update
+                pname = root[1]
+                a_ = f.node.args
+                pos = [x.arg for x in a_.posonlyargs + a_.args]
+                is_method = f.cls is not None and not any(getattr(d, "id", None) == "staticmethod" for d in f.node.decorator_list)
+                if pname not in pos:
+                    continue
+                idx = pos.index(pname) - (1 if is_method else 0)
+                bad_sites = []
+                for g_ in repo.all_functions():
+                    og = _full(g_)
+                    for cname, recv, sts, kws in og.calls:
+                        if cname != f.name or (is_method and recv is None) or (not is_method and recv is not None):
+                            continue
+                        st_ = kws.get(pname, sts[idx] if 0 <= idx < len(sts) else None)
+                        if st_ in (own.BATTR, own.BORROWED):
+                            bad_sites.append(g_.ident)
+                where = f"an item of parameter `{pname}`, which {', '.join(sorted(set(bad_sites))[:3])} hand(s) a container of its own object / caller"
+                if fields is not None and bad_sites:
+                    # only containers held in the attributes this property speaks about
+                    hit = False
+                    for g_ in repo.all_functions():
+                        for c_ in walk_no_nested(g_.node):
+                            if isinstance(c_, ast.Call) and (getattr(c_.func, "id", None) == f.name or getattr(c_.func, "attr", None) == f.name):
+                                for a__ in list(c_.args) + [k.value for k in c_.keywords]:
+                                    if isinstance(a__, ast.Attribute) and a__.attr in fields:
+                                        hit = True
+                    if not hit:
+                        continue
+            n_sinks += 1
+            ctx.decide(not bad_sites, rule, f.ident, loc_of(f, node), f"{desc}: no call site hands in a container it does not own",
+                       f"{desc}: {where}. For array items (0-d backend scalars, tensors) the accumulation happens inside that item, so the caller's container -- a recorded "
+                       "series, a stored population field -- is rewritten", disc=f"{name}|item")
     if only_module is None:
         ctx.floor("in-place array writes analysed", n_sinks, 10)
     return n_sinks
